@@ -11,15 +11,15 @@ TOLERANCE = 'geometry 1e-9 of the size (printed %.15g), radius 1e-7, voltages / 
 RULE = ('Validation of the prompt automaton: all stored test/*.mini, *.mini12 answer files (which ran on the BASIC program) are '
         'consumed completely and re-create the pulse table of the corresponding .pym model. Exploration: the 4 base command '
         'lines of C15, every single deviation (thorough: every pair) of the C15 menu that BASIC can express plus source '
-        'voltages {1, j, -1, 0.5-0.5j, 2 at 30 deg} x BASIC versions {9, 12, 13} x requested outputs {none, dBi, V/m with power '
-        'and distance, near field with power}; the generated text is consumed prompt by prompt (every answer consumed, none '
+        'voltages {1, j, -1, 0.5-0.5j, 2 at 30 deg} x BASIC versions {9, 12, 13} x requested outputs {none, dBi, V/m with and without power '
+        'and distance, near field with and without power}; the generated text is consumed prompt by prompt (every answer consumed, none '
         'left, none missing), the read-back case is compared with the model (frequency, environment and media, wires, '
         'sources with phase in degrees, loads in the units of the version) and rebuilt through the API (same pulse table, '
         'same feed impedance). State = (accepted command line, version, request); transition = write + read back. '
         'Non-trivial: a deviation, a complex voltage or a load is present.')
 ASSUMPTIONS = ['prompt order as quoted in the writer comments and confirmed by the stored answer files that ran on the BASIC program']
 VOLTS = ['1', '1j', '-1', '0.5-0.5j', '%r%+rj' % (2 * math.cos(math.radians(30)), 2 * math.sin(math.radians(30)))]
-REQS = ['none', 'dbi', 'vm', 'near']
+REQS = ['none', 'dbi', 'vm', 'near', 'vm0', 'near0']      # vm0 / near0: without a power level (and distance)
 
 
 def bounds(tier, seed):
@@ -36,7 +36,7 @@ def cases(tier, seed):
                 if devs and vi and len(devs) > 1:
                     continue
                 ver = ('9', '12', '13')[k % 3]
-                req = REQS[(k // 3) % 4]
+                req = REQS[(k // 3) % len(REQS)]
                 k += 1
                 yield dict(kind='gen', base=b, devs=devs, volt=v, version=ver, req=req)
         for ver in ('9', '12', '13'):
@@ -197,12 +197,16 @@ def evaluate(c):
         return dict(viol=[], skipped='not-expressible(impedance and Laplace loads mixed)', evals=1)
     ns = argparse.Namespace(mininec_version=c['version'])
     kw = {}
-    if c['req'] in ('dbi', 'vm'):
+    if c['req'] in ('dbi', 'vm', 'vm0'):
         kw.update(azi=mm.Angle(0., 90., 3), zen=mm.Angle(5., 30., 3))
     if c['req'] == 'vm':
         kw.update(ff_abs=True, pwr_ff=100., ff_dist=1000.)
+    if c['req'] == 'vm0':
+        kw.update(ff_abs=True, ff_dist=0.)      # the program always asks for the distance (0 = none)
     if c['req'] == 'near':
         kw.update(near=[1., 2., 3., 0.5, 0.5, 0.5, 2, 1, 2], pwr_nf=10.)
+    if c['req'] == 'near0':
+        kw.update(near=[1., 2., 3., 0.5, 0.5, 0.5, 2, 1, 2])
     try:
         m.compute()
         text = m.as_basic_input(ns, **kw)
@@ -214,7 +218,7 @@ def evaluate(c):
         return dict(viol=[('PROMPTS', '%s: generated answers do not follow the prompts: %s' % (label, e))], canon=label)
     compare(m, cs, c['version'], viol, label)
     # requested outputs
-    want = {'none': ['C'], 'dbi': ['C', 'P'], 'vm': ['C', 'P'], 'near': ['C', 'N', 'N']}[c['req']]
+    want = {'none': ['C'], 'dbi': ['C', 'P'], 'vm': ['C', 'P'], 'vm0': ['C', 'P'], 'near': ['C', 'N', 'N'], 'near0': ['C', 'N', 'N']}[c['req']]
     got = [r[0] for r in cs['requests']]
     if got != want:
         viol.append(('REQUESTS', '%s: menu requests %s, expected %s' % (label, got, want)))
@@ -222,13 +226,15 @@ def evaluate(c):
         for r in cs['requests']:
             if r[0] == 'P':
                 q = r[1]
-                if q['zen'] != [5., 30., 3.] or q['azi'] != [0., 90., 3.] or (c['req'] == 'vm') != (q['kind'] == 'V'):
+                if q['zen'] != [5., 30., 3.] or q['azi'] != [0., 90., 3.] or (c['req'] in ('vm', 'vm0')) != (q['kind'] == 'V'):
                     viol.append(('REQUEST-PATTERN', '%s: pattern request %s' % (label, q)))
                 if c['req'] == 'vm' and (q.get('power') != 100. or q.get('dist') != 1000.):
                     viol.append(('REQUEST-POWER', '%s: V/m request %s' % (label, q)))
+                if c['req'] == 'vm0' and (q.get('power') is not None or q.get('dist') not in (None, 0., 0)):
+                    viol.append(('REQUEST-POWER', '%s: V/m request without power level / distance written as %s' % (label, q)))
             if r[0] == 'N':
                 q = r[1]
-                if q['x'] != [1., 0.5, 2.] or q['y'] != [2., 0.5, 1.] or q['z'] != [3., 0.5, 2.] or q.get('power') != 10.:
+                if q['x'] != [1., 0.5, 2.] or q['y'] != [2., 0.5, 1.] or q['z'] != [3., 0.5, 2.] or q.get('power') != (10. if c['req'] == 'near' else None):
                     viol.append(('REQUEST-NEAR', '%s: near-field request %s' % (label, q)))
     if not viol:
         try:
